@@ -21,7 +21,9 @@ type Call struct {
 }
 
 // OK reports whether the call finished successfully.
-func (c *Call) OK() bool { return c.Returned && !c.CtxDone && (c.Out == OK || c.Out == NilResp) }
+func (c *Call) OK() bool {
+	return c.Returned && !c.CtxDone && (c.Out == OK || c.Out == NilResp || c.Out == Late)
+}
 
 // FinalFail reports whether the call finished with an outcome after which no retry may follow.
 func (c *Call) PermFail() bool {
